@@ -23,7 +23,7 @@ func init() {
 			"Oracle: MatchString(s) implies that a hand-written recogniser of the documented form accepts s (hence every character of s is in the documented alphabet); every documented example is accepted. " +
 			"non-trivial = strings on which matcher and recogniser both answer yes, plus strings that differ from an accepted one by a single edit and are rejected.",
 		Assumptions: []string{"the recognisers in internal/checks/c19.go are the reference for 'documented form'; letter-case folding is ASCII only in the alphabets used"},
-		QuickBudget:  50, ThoroughBudget: 800,
+		QuickBudget: 50, ThoroughBudget: 800,
 		Run:    runC19,
 		Replay: replayC19,
 	})
